@@ -82,6 +82,8 @@ def poly_of(cn, node):
     if s.get("k") == "BinaryOperator" and s.get("op") in ("+", "-", "*"):
         a, b = poly_of(cn, s["c"][0]), poly_of(cn, s["c"][1])
         return {"+": a + b, "-": a - b, "*": a * b}[s["op"]]
+    if s.get("k") == "DeclRefExpr" and s["d"]["id"] in cn.defs:
+        return poly_of(cn, cn.defs[s["d"]["id"]])          # a named temporary is its initialiser
     if s.get("k") == "MemberExpr" and s["m"]["n"] in ("n", "start"):
         # field of a local slice that is built once from a braced pair and never written: slice v{a, b}; v.n is b
         il = _local_pair(cn, (s.get("c") or [None])[0])
@@ -410,13 +412,50 @@ def _result_n(f, cn, case):
                 for n in walk(loop["body"]):
                     if n.get("k") == "CXXOperatorCallExpr" and n.get("op") == "=" and cn.c(n["c"][1]) == txt:
                         il = [x for x in walk(n["c"][2]) if x.get("k") == "InitListExpr"]
-                        if il and len(il[0]["c"]) == 2:
+                        rhs = strip(n["c"][2], casts=True)
+                        inc = None
+                        if rhs is not None and rhs.get("k") == "CXXMemberCallExpr" and \
+                                (rhs.get("callee") or {}).get("q", "").startswith(R + "dfa_builder::"):
+                            # v = op(v, slice{...}): the slice that operation returns (cat returns s1.n + s2.n)
+                            g = f.facts.by_id.get(rhs["callee"]["id"])
+                            sub = _result_n(g, Canon(g), {"n0": False}) if g is not None else None
+                            if sub is not None:
+                                args = A.call_args(rhs)
+                                val = Poly()
+                                for key, coef in sub.items():
+                                    term = Poly.const(coef)
+                                    for s_ in key:
+                                        mm = re.fullmatch(r"\$(\d+)\.n", s_)
+                                        if mm and int(mm.group(1)) < len(args):
+                                            a_ = strip(args[int(mm.group(1))], casts=True)
+                                            ilp = _pair_of(a_)
+                                            term = term * (poly_of(cn, ilp["c"][1]) if ilp is not None
+                                                           else Poly.sym(cn.c(a_) + ".n"))
+                                        else:
+                                            term = term * Poly.sym(s_)
+                                    val = val + term
+                                inc = val - Poly.sym(txt + ".n")
+                        elif il and len(il[0]["c"]) == 2:
                             inc = poly_of(cn, il[0]["c"][1]) - Poly.sym(txt + ".n")
+                        if inc is not None:
                             d = loop["init"]["decls"][0]
                             cond = strip(loop["cond"], casts=True)
                             trip = poly_of(cn, cond["c"][1]) - poly_of(cn, d.get("init"))
                             total = total + trip * inc
             return total
+    return None
+
+
+def _pair_of(e):
+    """The two-element braced / constructed pair an expression is (slice{a, b}), else None."""
+    if e is None:
+        return None
+    for x in walk(e):
+        if x.get("k") == "InitListExpr" and len(x.get("c") or []) == 2:
+            return x
+        if x.get("k") in ("CXXConstructExpr", "CXXTemporaryObjectExpr") and len(x.get("c") or []) == 2 and \
+                not (x.get("ctor") or {}).get("copy"):
+            return x
     return None
 
 
